@@ -266,6 +266,10 @@ class Models:
             if not dt['elems']:
                 return ZST()
             return AGG('tuple', 0, [SYM('app', '%s.%d' % (np, i), site, *rs) for i in range(len(dt['elems']))])
+        # a crate-local plain struct of scalars (a named pair/triple) is the same thing with field names
+        if dt['k'] == 'adt' and dt.get('local') and not dt.get('is_enum') and dt.get('variants') and 2 <= len(dt['variants'][0]['fields']) <= 4 \
+                and all(I.T[f['ty']]['k'] in ('uint', 'int', 'bool') for f in dt['variants'][0]['fields']):
+            return AGG(dt['adt'], 0, [SYM('app', '%s.%d' % (np, i), site, *rs) for i in range(len(dt['variants'][0]['fields']))])
         return SYM('app', np, site, *rs)
 
     # ----------------------------------------------------------- user callbacks
@@ -556,6 +560,84 @@ class Models:
             return self.finish(I, st, fr, t, cont, I.variant_fields(st, v, 0, 1)[0])
         I.emit(st, fr, {'k': 'discard_err', 'val': I.variant_fields(st, v, 1, 1)[0], 'how': np})
         return self.finish(I, st, fr, t, cont, args[1] if len(args) > 1 else SYM('default', np))
+
+    def m_option_ok_or(self, I, st, fr, t, c, np, args, cont):
+        """std::option::Option::ok_or"""
+        v = args[0]
+        idx = I.variant_of(st, v, OPT_V, OPTION)
+        if idx == 1:
+            return self.finish(I, st, fr, t, cont, OK(I.variant_fields(st, v, 1, 1)[0]))
+        return self.finish(I, st, fr, t, cont, ERR(args[1]))
+
+    def m_option_ok_or_else(self, I, st, fr, t, c, np, args, cont):
+        """std::option::Option::ok_or_else"""
+        v = args[0]
+        idx = I.variant_of(st, v, OPT_V, OPTION)
+        if idx == 1:
+            return self.finish(I, st, fr, t, cont, OK(I.variant_fields(st, v, 1, 1)[0]))
+        return self.call_closure(I, st, fr, t, args[1], [], 'wrap_err', (cont[1], cont[2]))
+
+    def m_option_or(self, I, st, fr, t, c, np, args, cont):
+        """std::option::Option::or|std::option::Option::and"""
+        v = args[0]
+        idx = I.variant_of(st, v, OPT_V, OPTION)
+        if np.endswith('::or'):
+            return self.finish(I, st, fr, t, cont, v if idx == 1 else args[1])
+        return self.finish(I, st, fr, t, cont, args[1] if idx == 1 else NONE())
+
+    def m_option_filter(self, I, st, fr, t, c, np, args, cont):
+        """std::option::Option::unwrap_or_default"""
+        v = args[0]
+        idx = I.variant_of(st, v, OPT_V, OPTION)
+        if idx == 1:
+            return self.finish(I, st, fr, t, cont, I.variant_fields(st, v, 1, 1)[0])
+        return self.finish(I, st, fr, t, cont, SYM('default', np))
+
+    def m_result_and(self, I, st, fr, t, c, np, args, cont):
+        """std::result::Result::and|std::result::Result::or"""
+        v = args[0]
+        idx = I.variant_of(st, v, RES_V, RESULT)
+        if np.endswith('::and'):
+            return self.finish(I, st, fr, t, cont, args[1] if idx == 0 else v)
+        if idx == 1:
+            I.emit(st, fr, {'k': 'discard_err', 'val': I.variant_fields(st, v, 1, 1)[0], 'how': np})
+        return self.finish(I, st, fr, t, cont, v if idx == 0 else args[1])
+
+    def m_result_map_or_else(self, I, st, fr, t, c, np, args, cont):
+        """std::result::Result::map_or_else"""
+        v = args[0]
+        idx = I.variant_of(st, v, RES_V, RESULT)
+        if idx == 0:
+            return self.call_closure(I, st, fr, t, args[2], [I.variant_fields(st, v, 0, 1)[0]], 'id', (cont[1], cont[2]))
+        I.emit(st, fr, {'k': 'tested', 'val': v, 'how': np})
+        return self.call_closure(I, st, fr, t, args[1], [I.variant_fields(st, v, 1, 1)[0]], 'id', (cont[1], cont[2]))
+
+    def m_bool_then(self, I, st, fr, t, c, np, args, cont):
+        """core::bool::then_some|std::bool::then_some|bool::then_some"""
+        b = I.resolve(st, args[0])
+        if b is not None and VAL[b][0] == 'int':
+            return self.finish(I, st, fr, t, cont, SOME(args[1]) if VAL[b][1] != '0' else NONE())
+        return self.generic(I, st, fr, t, np, args, cont, c)
+
+    def m_ord_max(self, I, st, fr, t, c, np, args, cont):
+        """std::cmp::Ord::max|std::cmp::Ord::min|std::cmp::max|std::cmp::min"""
+        a, b = I.resolve(st, args[0]), I.resolve(st, args[1])
+        if a is None or b is None:
+            return self.generic(I, st, fr, t, np, args, cont, c)
+        ia, ib = VAL[a][0] == 'int', VAL[b][0] == 'int'
+        ismax = np.endswith('max')
+        if ia and ib:
+            x, y = int(VAL[a][1]), int(VAL[b][1])
+            return self.finish(I, st, fr, t, cont, a if ((x > y) == ismax or x == y) else b)
+        if not (ia or ib):
+            return self.generic(I, st, fr, t, np, args, cont, c)
+        # clamping against a constant: `n.max(2)` is `if n < 2 { 2 } else { n }` -- decided by forking on the comparison
+        cnd = SYM('cmp', 'Lt', a, b)
+        f = st.facts.get(('sw', cnd))
+        if f is None:
+            raise NeedFork(('sw', cnd), [(0, {'k': 'branch', 'val': cnd, 'eq': 0}), (1, {'k': 'branch', 'val': cnd, 'eq': 1})])
+        lt = (f == 1)
+        return self.finish(I, st, fr, t, cont, (b if lt else a) if ismax else (a if lt else b))
 
     def m_option_transpose(self, I, st, fr, t, c, np, args, cont):
         """std::option::Option::transpose"""
